@@ -259,6 +259,22 @@ func runC11(c *core.Ctx) {
 	// nothing is left behind even when a child is killed or aborts on a hang
 	os.Setenv("TMPDIR", tmp)
 
+	// 0. (runs beside everything else) an upstream reply that takes 5.5 s: still delivered, nobody else's reply displaced
+	slowCh := make(chan childResult, 1)
+	go func() { slowCh <- runChild(exe, 90*time.Second, nil, "-kind", "slow", "-seed", fmt.Sprint(c.Seed+4)) }()
+	defer func() {
+		res := <-slowCh
+		for _, m := range res.lines {
+			switch m["kind"] {
+			case "slow-problem":
+				c.Native(fmt.Sprint(m["what"]), m)
+			case "slow-ok":
+				c.NativeCheck(1)
+			}
+		}
+		abnormal(c, "history with a slow upstream reply", res)
+	}()
+
 	emitted := 0
 	// 1. which methods wait for the server mutex (facts table vs run time)
 	res := runChild(exe, 120*time.Second, nil, "-kind", "mode", "-seed", fmt.Sprint(c.Seed))
